@@ -124,7 +124,7 @@ def run(repo: Repo, L: Ledger, tier: str):
         return st, c
 
     # keep flags from cut_fragments' loop body
-    loops = [n for n in cut.node.body if isinstance(n, ast.For)]
+    loops = [n for n in cut.node.body if isinstance(n, ast.For) and any(isinstance(c, ast.Call) and isinstance(c.func, ast.Attribute) and c.func.attr == "trim_fragment" for c in walk_shallow(n))]
     if len(loops) != 1 or not isinstance(loops[0].target, ast.Tuple):
         raise AnalysisError("cut_fragments: loop over the ordered owners not found")
     lp = loops[0]
